@@ -22,7 +22,7 @@ import (
 
 func init() {
 	register(&Prop{
-		ID: "C08", Cases: rpcCases(400, 12000), Batch: func(tier string) int {
+		ID: "C08", Cases: rpcCases(400, 4000), Batch: func(tier string) int {
 			if tier == "thorough" {
 				return 250
 			}
